@@ -220,3 +220,9 @@ func init() {
 		}
 	}})
 }
+
+func init() {
+	register(&Property{ID: "X-dst", NeedSSA: true, Decided: "dump", NotDecided: "-", Run: func(c *Ctx) {
+		runDstRule(c, "X.dst", []string{"/encoding", "/compress"}, nil)
+	}})
+}
